@@ -561,6 +561,30 @@ def run(tier: str, driver_ok: bool) -> Result:
                 ev = evaluate_bundle(rec, case)
                 todo.append((f"{tag}|{pname}", case, ev, False))
                 lines.append({"op": "c07_bundle", "bundle": bundle_j(ev["bundle"]), "verify": ev["records"]})
+        # ---- EdDSA (outside the property's quantifier; the tie model <-> /repo only).  /repo's EdDSA `decode_public_key` keeps the
+        # base64 TEXT as the key octets, so no EdDSA signature can ever verify; the model must predict exactly that outcome
+        # from the recorded verifier answer.
+        from cryptography.hazmat.primitives.asymmetric import ed25519
+        from cryptography.hazmat.primitives import serialization
+
+        for ei in range(3):
+            sk = ed25519.Ed25519PrivateKey.from_private_bytes(r.randbytes(32))
+            pkb = sk.public_key().public_bytes(serialization.Encoding.Raw, serialization.PublicFormat.Raw)
+            rd = bytes([1, 0, 3, 15]) + pkb
+            tag15 = 0
+            for i, b in enumerate(rd):
+                tag15 += b if (i & 1) else (b << 8)
+            tag15 = (tag15 + ((tag15 >> 16) & 0xFFFF)) & 0xFFFF
+            ek = {"id": f"ed{ei}", "tag": tag15, "ttl": 172800, "flags": 256, "protocol": 3, "alg": 15, "pk": base64.b64encode(pkb).decode()}
+            es = {"id": ek["id"], "ttl": 172800, "alg": 15, "labels": 0, "ottl": 172800, "exp": EXP, "inc": INC, "tag": tag15, "name": ".", "sig": ""}
+            tbs = dns_tbs(es, [ek])
+            assert tbs is not None
+            es["sig"] = base64.b64encode(sk.sign(tbs)).decode()
+            for etag, ecase in (("eddsa:honest", {"keys": [ek], "sigs": [es]}), ("eddsa:sig-bit", {"keys": [ek], "sigs": [dict(es, sig=flip(es["sig"], 3))]})):
+                ev = evaluate_bundle(rec, ecase)
+                todo.append((f"{etag}|ed25519x1", ecase, ev, False))
+                lines.append({"op": "c07_bundle", "bundle": bundle_j(ev["bundle"]), "verify": ev["records"]})
+
         # ---- multi-bundle requests through validate_request (PoP among the other rules; bad bundle first / middle / last)
         from kskm.common.config_misc import RequestPolicy
         from kskm.common.data import AlgorithmDNSSEC, AlgorithmPolicyECDSA, AlgorithmPolicyRSA, SignaturePolicy
@@ -620,6 +644,10 @@ def run(tier: str, driver_ok: bool) -> Result:
     finally:
         rec.uninstall()
 
+    res.notes.append(
+        "EdDSA is outside C07's quantifier; observed on /repo: KSKM_PublicKey_EdDSA.decode_public_key keeps the base64 text as key octets, "
+        "so an honestly signed Ed25519 bundle ends in ValueError (never accepted); the model predicts the same from the recorded answer"
+    )
     model = run_driver(lines, exe=DRIVER) if driver_ok else [None] * len(lines)
     for (tag, case, ev, is_request), m in zip(todo, model):
         res.count(case)
@@ -648,6 +676,10 @@ def run(tier: str, driver_ok: bool) -> Result:
         want = expected_accept(tag)
         indep = independent_accepts(case)
         rcase = {"tag": tag, **case}
+        if kind[0] == "eddsa":
+            # outside the quantifier (RSA / ECDSA): judged against the model only; the observed behaviour is recorded
+            res.bump("outside-quantifier:eddsa:" + ("accept" if "ok" in pop else next(iter(pop.values()))))
+            want = indep = "ok" in pop
         if len(res.samples) < 5 and kind[0] in ("honest", "tamper") and kind[1] in ("order", "key-bit", "omit-signature", "self-signed-only", "sig-original-ttl") and not any(s["tag"].split(":")[1] == kind[1] for s in res.samples):
             res.sample({"tag": tag, "keys": [{**k, "pk": k["pk"][:20] + "..."} for k in case["keys"]], "sigs": [{**s, "sig": s["sig"][:20] + "..."} for s in case["sigs"]],
                         "impl": {"validate_signatures": vs, "check_proof_of_possession": pop}, "verifier_calls_recorded": len(ev["records"]),
